@@ -55,7 +55,12 @@ def check_case(ctx, case):
         if not rc.ok:
             return 'conversion failed: ' + rc.fail_text()
         comp_els = Scene(rc.out, dx=-8 * cx, dy=-16 * cy).els
-    r = ctx.conv(gen.text_of(rows))
+    if case.get('previous'):
+        # the page drawn into a CellBuffer that held (and converted) another document before
+        r = ctx.conv(case['previous'] + '\x1e' + gen.text_of(rows), entry=6)
+        ctx.tag('edited_buffer_conversions')
+    else:
+        r = ctx.conv(gen.text_of(rows))
     if not r.ok:
         return 'conversion failed: ' + r.fail_text()
     try:
@@ -113,7 +118,10 @@ def run_shard(ctx, shard):
         comp = None
         if rng.random() < 0.4:
             comp = (rng.choice(COMPANIONS), rng.choice(['right', 'below']))
-        ctx.run_case({'idx': idx, 'art': art, 'ox': ox, 'oy': oy, 'companion': comp})
+        case = {'idx': idx, 'art': art, 'ox': ox, 'oy': oy, 'companion': comp}
+        if rng.random() < 0.2:
+            case['previous'] = rng.choice(['+--+\n|  |\n+--+\n', 'abc def\n', ' .-.\n(   )\n `-\'\n', '-->\n', '\n'])
+        ctx.run_case(case)
     ctx.sample({'drawing': art, 'offsets': shard['offsets'][:3]})
     ctx.tag('drawings_seen')
 
